@@ -75,7 +75,7 @@ def run_one(m):
         if err:
             return dict(m=m, status="stale", detail=err)
         # the mutant must still compile, otherwise it is not a realistic change
-        pkgs = sorted({"./" + os.path.dirname(e["file"]) for e in m.get("edits", [])}) or ["./pub"]
+        pkgs = sorted({"./" + os.path.dirname(e["file"]) for e in m.get("edits", []) if e["file"].endswith(".go")}) or ["./pub"]
         b = subprocess.run(["go", "build"] + pkgs, cwd=dst, env=ENV, capture_output=True, text=True)
         if b.returncode != 0:
             return dict(m=m, status="stale", detail="mutant does not compile: " + (b.stdout + b.stderr)[:400])
